@@ -2,18 +2,9 @@
 From Coq Require Import ZArith List String Bool Lia.
 Import ListNotations.
 From TD Require Import Model.Keys Proofs.KeysP Model.C04_Tree Model.C04_Ops Model.C04_Views Model.C04_Step
-     Spec.C04_NestedDict Proofs.C04_AssocP Proofs.C04_CoreP Proofs.C04_RenameP Proofs.C04_UpdateP Proofs.C04_ViewsP Proofs.C04_FlattenP Proofs.C04_UnflattenP.
+     Spec.C04_NestedDict Proofs.C04_AssocP Proofs.C04_CoreP Proofs.C04_PrelimP Proofs.C04_RenameP Proofs.C04_UpdateP Proofs.C04_ViewsP Proofs.C04_FlattenP Proofs.C04_UnflattenP Proofs.C04_SplitP.
 Open Scope string_scope.
 Open Scope list_scope.
-
-(* ---- abstraction of operations: a well-formed spelling denotes its in-order strings ---- *)
-Definition kp (k : pykey) : option path := if wfb k then Some (strings k) else None.
-
-Fixpoint traverse {A B} (f : A -> option B) (l : list A) : option (list B) :=
-  match l with
-  | [] => Some []
-  | x :: r => match f x, traverse f r with Some a, Some b => Some (a :: b) | _, _ => None end
-  end.
 
 Definition abs_op (o : op) : option sop :=
   match o with
@@ -41,34 +32,10 @@ Definition abs_ret (r : retval) : sret :=
 Definition abs_sres (r : stepres) : sres :=
   mk_sres (absE (sr_self r)) (abs_ret (sr_ret r)) (option_map (map absE) (sr_results r)) (absE (sr_cont r)).
 
-Lemma kp_some k p : kp k = Some p -> wfb k = true /\ strings k = p /\ cpp_unravel_to_tuple k = p /\ p <> [].
-Proof.
-  unfold kp. destruct (wfb k) eqn:W; [|discriminate]. intros E; injection E as <-.
-  destruct (wf_key_tuple k W). auto.
-Qed.
-
 (* ---- clear, filter_empty ---- *)
 Lemma clear_nil es : clear es = [].
 Proof.
   unfold clear. induction es as [|[k v] r IH]; [reflexivity|]. cbn. now rewrite String.eqb_refl.
-Qed.
-
-Lemma prune_abs : forall v, abs (prune v) = nd_prune (abs v).
-Proof.
-  induction v as [k z|es IH] using tree_ind2; [destruct k; reflexivity|].
-  rewrite abs_Node. cbn [prune nd_prune]. rewrite abs_Node. f_equal.
-  induction IH as [|[k w] r Hw Hr IHr]; [reflexivity|]. cbn [absE]. cbn in Hw.
-  destruct w as [lk z|sub].
-  - cbn [is_nodeb andb]. destruct lk; cbn [abs absE]; f_equal; exact IHr.
-  - cbn [is_nodeb andb]. rewrite abs_Node. rewrite <- abs_Node, has_leaf_abs.
-    destruct (has_leaf (Node sub)); cbn [negb]; [|exact IHr].
-    cbn [absE]. rewrite Hw, abs_Node. f_equal. exact IHr.
-Qed.
-
-Lemma filter_empty_abs es : absE (filter_empty es) = nd_filter_empty (absE es).
-Proof.
-  unfold filter_empty, nd_filter_empty. pose proof (prune_abs (Node es)) as P. rewrite abs_Node in P.
-  destruct (prune (Node es)) as [k z|es'] eqn:E; [cbn in E; discriminate|]. rewrite abs_Node in P. rewrite <- P. reflexivity.
 Qed.
 
 (* ---- the scope of the step theorem: operation kinds proved so far, outside the regions where the code deviates ---- *)
@@ -81,6 +48,7 @@ Definition in_scope (o : op) : Prop :=
       strict_prefix (strings k1) (strings k2) -> safe = false
   | OUpdate _ | OFlatten _ _ _ => True
   | OUnflatten sep _ _ => sep <> ""
+  | OSplit sets inplace _ _ _ => split_scope sets inplace   (* in place: the epilogue iterates a python set (hash order) *)
   | _ => False
   end.
 
@@ -166,6 +134,14 @@ Proof.
     + rewrite P. cbn. split; reflexivity.
     + contradiction.
     + destruct P as [P ->]. rewrite P. cbn. split; [discriminate|reflexivity].
+  - (* split_keys *)
+    destruct (traverse (traverse kp) sets) as [pss|] eqn:T; [|discriminate]. injection A as <-.
+    cbn [step nd_step]. pose proof (split_keys_refines sets pss inplace strict dflt es T S) as P.
+    destruct (split_keys sets inplace strict dflt es) as [es' [outs|e]].
+    + destruct P as [rest [souts [P1 [P2 P3]]]]. rewrite P1. cbv beta iota zeta. split; [reflexivity|].
+      unfold abs_sres. cbn [sr_self sr_ret sr_results sr_cont abs_ret option_map]. rewrite <- P2, <- P3.
+      f_equal. destruct cont as [i|]; [|reflexivity]. now rewrite map_nth.
+    + destruct P as [P ->]. rewrite P. cbn. split; [discriminate|reflexivity].
   - (* flatten_keys, out of place and in place *)
     injection A as <-. cbn [step nd_step]. pose proof (flatten_out_refines sep es) as P.
     destruct inplace.
@@ -219,35 +195,6 @@ Proof.
 Qed.
 
 (* ---- well-formedness is an invariant ---- *)
-Lemma prune_keys_incl : forall es x,
-  In x (map fst ((fix go (es : ents) : ents :=
-           match es with
-           | [] => []
-           | (k, w) :: r => if is_nodeb w && negb (has_leaf w) then go r else (k, prune w) :: go r
-           end) es)) -> In x (map fst es).
-Proof.
-  induction es as [|[k w] r IH]; intros x; [tauto|]. destruct (is_nodeb w && negb (has_leaf w)); cbn.
-  - intros I. right. now apply IH.
-  - intros [E|I]; [now left|right; now apply IH].
-Qed.
-
-Lemma prune_wf : forall v, wf v -> wf (prune v).
-Proof.
-  induction v as [k z|es IH] using tree_ind2; intros W; [exact W|].
-  inversion W as [|es0 ND F]; subst. cbn [prune]. constructor.
-  - clear IH F W. induction es as [|[k w] r IHr]; [constructor|]. inversion ND; subst.
-    destruct (is_nodeb w && negb (has_leaf w)); [now apply IHr|]. cbn. constructor; [|now apply IHr].
-    intros I. apply prune_keys_incl in I. contradiction.
-  - clear ND W. induction IH as [|[k w] r Hw Hr IHr]; [constructor|]. inversion F; subst.
-    destruct (is_nodeb w && negb (has_leaf w)); [now apply IHr|]. constructor; [cbn in *; now apply Hw|now apply IHr].
-Qed.
-
-Lemma filter_empty_wf es : wfE es -> wfE (filter_empty es).
-Proof.
-  intros W. unfold filter_empty. pose proof (prune_wf (Node es) W) as P.
-  destruct (prune (Node es)) as [k z|es'] eqn:E; [exact W|exact P].
-Qed.
-
 Definition values_wf (o : op) : Prop :=
   match o with
   | OSet _ v | OSetItem _ v | OSetDefault _ v => wf v
@@ -293,6 +240,11 @@ Proof.
     + destruct (get k es) as [w| |e]; exact W.
     + destruct (set_tuple p v es) as [es'|e] eqn:E; [|exact W]. pose proof (set_tuple_wf _ _ _ _ W V E) as W'.
       destruct (get k es') as [w| |e]; exact W'.
+  - (* split_keys *)
+    cbn [step]. pose proof (split_keys_wf sets inplace strict dflt es W) as P.
+    destruct (split_keys sets inplace strict dflt es) as [es' [outs|e]]; [|exact P].
+    destruct P as [P1 P2]. cbn. destruct cont as [i|]; [|exact P1].
+    destruct (nth_in_or_default i outs es') as [I|E]; [rewrite Forall_forall in P2; exact (P2 _ I)|now rewrite E].
   - cbn [step]. destruct inplace.
     + rewrite flatten_in_eq. destruct (flatten_out sep es) as [out|e] eqn:E; cbn; [exact (flatten_out_wf _ _ _ W E)|exact W].
     + destruct (flatten_out sep es) as [out|e] eqn:E; cbn; [|exact W].
